@@ -3,6 +3,7 @@ package sym
 import (
 	"fmt"
 	"go/types"
+	"sync"
 )
 
 // apiHooks are the harness-side functions (declared in the overlay file
@@ -46,7 +47,7 @@ func init() {
 				}
 				return nil
 			}
-			if r := e.S.CheckWith(c); r == Unsat {
+			if r := e.check(c); r == Unsat {
 				panic(pathAbort{"assumption infeasible"})
 			}
 			e.assume(c)
@@ -200,7 +201,7 @@ func (e *Exec) Assert(c *Term, label string) {
 		panic(pathStop{})
 	}
 	neg := e.B.Not(c)
-	r := e.S.CheckWith(neg)
+	r := e.check(neg)
 	switch r {
 	case Unsat:
 		e.known[c.ID] = true
@@ -212,7 +213,7 @@ func (e *Exec) Assert(c *Term, label string) {
 	}
 	e.recordViolation("assert", label, "", neg)
 	// continue on the side where the assertion holds
-	if rr := e.S.CheckWith(c); rr == Unsat {
+	if rr := e.check(c); rr == Unsat {
 		panic(pathStop{})
 	}
 	e.assume(c)
@@ -221,12 +222,17 @@ func (e *Exec) Assert(c *Term, label string) {
 // recordViolation extracts a model for PC ∧ extra and stores a violation.
 func (e *Exec) recordViolation(kind, label, detail string, extra *Term) {
 	v := &Violation{Kind: kind, Label: label, Detail: detail, Harness: e.harness, Path: append([]Decision(nil), e.trace...)}
+	if e.tracker != nil && !e.tracker.wantModel(kind+"|"+label) {
+		v.Detail += " (model omitted: same violation already recorded with models)"
+		e.violations = append(e.violations, v)
+		return
+	}
 	var r Result
 	var vals []ModelValue
 	if extra != nil {
-		r, vals = e.S.CheckModel(e.inputs, extra)
+		r, vals = e.checkVals(e.inputs, extra)
 	} else {
-		r, vals = e.S.CheckModel(e.inputs)
+		r, vals = e.checkVals(e.inputs)
 	}
 	if r == Sat {
 		for i, in := range e.inputs {
@@ -239,3 +245,16 @@ func (e *Exec) recordViolation(kind, label, detail string, extra *Term) {
 }
 
 var _ = types.Typ
+
+// violTracker limits model extraction for repeated violations of one label.
+type violTracker struct {
+	mu   sync.Mutex
+	seen map[string]int
+}
+
+func (t *violTracker) wantModel(key string) bool {
+	t.mu.Lock()
+	defer t.mu.Unlock()
+	t.seen[key]++
+	return t.seen[key] <= 3
+}
